@@ -9,20 +9,23 @@ import (
 )
 
 type Clause struct {
-	Label    string
-	Props    []string // nil: inherit from function
-	Uses     []string // nil: every assumption; else only the named invariants / callee postconditions (plus preconditions)
-	InitUses []string // extra assumptions for establishing a loop invariant
-	E        Expr
-	Src      string
+	Label      string
+	Props      []string // nil: inherit from function
+	Uses       []string // nil: every assumption; else only the named invariants / callee postconditions (plus preconditions)
+	InitUses   []string // extra assumptions for establishing a loop invariant
+	E          Expr
+	Src        string
 	Maintained bool // maintains [l] e: postcondition that is also an invariant of every loop of the function
-	Stable    bool // requires stable [l] e: a fact no other goroutine can invalidate; also checked where the function is spawned with `go`
-	Invariant bool // requires invariant [l] e: an object invariant, assumed on entry and NOT checked at call sites (listed as assumption)
+	Stable     bool // requires stable [l] e: a fact no other goroutine can invalidate; also checked where the function is spawned with `go`
+	Invariant  bool // requires invariant [l] e: an object invariant, assumed on entry and NOT checked at call sites (listed as assumption)
 }
 
 type LoopSpec struct {
 	Invs []Clause
 	Decr Expr
+	// Exits: `loop N: exits [l]{P} only "text"`: a return statement inside the loop is only allowed when its source
+	// text contains the text (e.g. the one return that reacts to a stop signal); any other return cuts the loop short
+	Exits []Clause
 }
 
 type AssertSpec struct {
@@ -31,6 +34,7 @@ type AssertSpec struct {
 	Callee string
 	K      int
 	Text   string // anchor by source text of the call expression (every matching call site)
+	Forbid bool   // forbid [l] "text": no call whose source text contains the text may be reachable
 }
 
 type FuncContract struct {
@@ -86,7 +90,7 @@ type ContractFile struct {
 var reLabel = regexp.MustCompile(`^\[([A-Za-z0-9_.\-]+)\](\{[A-Z0-9, ]+\})?\s*`)
 
 var clauseKW = map[string]bool{"func": true, "funcs": true, "iface": true, "callback": true, "pred": true, "ghost": true, "axiom": true, "lemma": true, "model": true,
-	"props": true, "requires": true, "ensures": true, "maintains": true, "fspath": true, "loop": true, "assert": true, "modifies": true, "trusted": true, "nilrecv": true, "pure": true, "package": true}
+	"props": true, "requires": true, "ensures": true, "maintains": true, "fspath": true, "forbid": true, "loop": true, "assert": true, "modifies": true, "trusted": true, "nilrecv": true, "pure": true, "package": true}
 
 func parseContractFile(path, pkg string) (*ContractFile, error) {
 	b, err := os.ReadFile(path)
@@ -181,6 +185,21 @@ func parseContractFile(path, pkg string) (*ContractFile, error) {
 					cur.Modifies = append(cur.Modifies, m)
 				}
 			}
+		case "forbid":
+			// forbid [label]{P} "text"
+			m := reLabel.FindStringSubmatch(rest)
+			if m == nil || cur == nil {
+				return nil, fail(fmt.Errorf("forbid needs a label"))
+			}
+			mt := regexp.MustCompile(`^"([^"]+)"$`).FindStringSubmatch(strings.TrimSpace(rest[len(m[0]):]))
+			if mt == nil {
+				return nil, fail(fmt.Errorf(`forbid clause must be: forbid [label] "text"`))
+			}
+			as := AssertSpec{Clause: Clause{Label: m[1], E: EBool{false}, Src: "false"}, Text: mt[1], Forbid: true}
+			if m[2] != "" {
+				as.Props = strings.Fields(strings.NewReplacer("{", "", "}", "", ",", " ").Replace(m[2]))
+			}
+			cur.Asserts = append(cur.Asserts, as)
 		case "fspath":
 			if cur == nil {
 				return nil, fail(fmt.Errorf("fspath outside func"))
@@ -232,6 +251,21 @@ func parseContractFile(path, pkg string) (*ContractFile, error) {
 					return nil, fail(err)
 				}
 				ls.Invs = append(ls.Invs, cl)
+			case "exits":
+				m := reLabel.FindStringSubmatch(strings.TrimSpace(r3))
+				if m == nil {
+					return nil, fail(fmt.Errorf("exits needs a label"))
+				}
+				rest2 := strings.TrimSpace(strings.TrimSpace(r3)[len(m[0]):])
+				mm := regexp.MustCompile(`^only\s+"([^"]*)"$`).FindStringSubmatch(rest2)
+				if mm == nil {
+					return nil, fail(fmt.Errorf(`exits clause must be: exits [label] only "text"`))
+				}
+				cl := Clause{Label: m[1], Src: mm[1]}
+				if m[2] != "" {
+					cl.Props = strings.Fields(strings.NewReplacer("{", "", "}", "", ",", " ").Replace(m[2]))
+				}
+				ls.Exits = append(ls.Exits, cl)
 			case "decreases":
 				e, err := parseExpr(r3)
 				if err != nil {
@@ -545,7 +579,6 @@ func matchParen(s string, i int) int {
 	}
 	return -1
 }
-
 
 // groupMatches reports whether a function key is selected by the patterns of a `funcs` block.
 func groupMatches(patterns []string, key string) bool {
